@@ -457,7 +457,8 @@ class MarkdownNormalizer(Renderer):
 
         # Preserve code content without reformatting.
         code_child = cast(inline.RawText, element.children[0])
-        code_content = code_child.children.rstrip("\n")
+        # Only the newline that ends the last line is dropped; trailing blank lines are content.
+        code_content = code_child.children.removesuffix("\n")
         lang = element.lang if isinstance(element, block.FencedCode) else ""
         extra = element.extra if isinstance(element, block.FencedCode) else ""
         extra_text = f" {extra}" if extra else ""
@@ -485,7 +486,7 @@ class MarkdownNormalizer(Renderer):
         empty_line_prefix = self._second_prefix.rstrip()
         # Split on "\n" only: `str.splitlines()` would also break at other Unicode separators
         # (\x0b, \x0c, \x1c-\x1e, \x85, \u2028, \u2029) and drop them from the code.
-        for line in code_content.split("\n") if code_content else []:
+        for line in code_content.split("\n") if code_child.children else []:
             if line:
                 lines.append(f"{self._second_prefix}{line}")
             else:
